@@ -1431,6 +1431,43 @@ example :
      | _ => false) = true ∧
     S.checkKids [.elem 1 [] [] [.text [120] []]] = false := by decide +kernel
 
+/-- **`fit_emits_valid_payload_of_inv`** — payload validity of the emitted step for **every** request, reduced to one
+    invariant of the loop: if the loop of `fit` ends with `placed` and the frontier in step and with
+    `FitState.validB` (PM/FitGuards.lean, decidable — the Boolean form of `VInv`: below a ghost level the chain of the
+    document's nodes; from there on valid closed children, open last children with canonical marks and the type
+    of the next frontier entry, and at the levels the Fitter opened marks the type allows and a match that is the
+    automaton state after all children), then the payload is valid: `close` only closes levels (each closed
+    node completed to valid content, `closableB`), adds the close level's filling and re-opens nodes with valid
+    fillers.  `fitEndInv S doc f t sl` evaluates both at the end of the loop (`none` when the Fitter is not
+    reached); the driver evaluates it on every generated request (op `fitEmit`, counters "validity invariant at
+    the end of the loop").  It is proved to hold for deletions and closed slices of valid leaf nodes
+    (`delete_emits_valid_payload`, `insertInline_emits_valid_payload`).  What remains for the unconditional
+    `fit_emits_valid_payload` is its invariance under `place_nodes` when the slice is open: `close_node_start`'s
+    results and the levels pushed for the open end (`pushOpenEnd`). -/
+theorem fit_emits_valid_payload_of_inv (S : Schema) (hdet : detB S = true) (hfill : S.fillersOKB = true)
+    (hleaf : PM.FromDom.leafOkB S = true) (hts : textStableC S = true) (hcl : S.closableB = true)
+    (doc : Node) (f t : Nat) (sl : Slice) (hslv : openValid S sl.openStart sl.openEnd sl.content = true)
+    (hattrs : S.nodeAttrsOK doc = true) (st : Step) (h : replaceStep S doc f t sl = .ok (some st))
+    (hend : fitEndInv S doc f t sl ≠ some false) :
+    ∃ sl', st.sliceOf = some sl' ∧ openValid S sl'.openStart sl'.openEnd sl'.content = true :=
+  replaceStep_valid_of_inv S (detS_of_detB S hdet) (fillersOK_of_B S hfill) (PM.FromDom.leafOk_of_B S hleaf)
+    (textStableP_of_C S hts) (closable_of_B S hcl) doc f t sl hslv hattrs st h hend
+
+/-- the hypotheses are satisfiable on a run that opens the slice and pushes its open end: pasting the closed
+    paragraph `p("x")` into the paragraph of `doc(p("ab"))` at position 2 (the run of the example of `fit_emits_wf`) -/
+example :
+    let nt (name : String) (isText inl : Bool) (dfa : Array DfaState) : NodeType :=
+      { name := name, isText := isText, isInline := isText, isLeaf := isText, isAtom := isText,
+        inlineContent := inl, isolating := false, defining := false, code := false,
+        dfa := dfa, markSet := none, attrs := [] }
+    let S : Schema := { nodes := #[nt "doc" false false #[⟨false, [(1, 1)]⟩, ⟨true, [(1, 1)]⟩],
+                                   nt "paragraph" false true #[⟨true, [(2, 0)]⟩],
+                                   nt "text" true false #[⟨true, []⟩]],
+                        marks := #[], top := 0, textTy := 2 }
+    let doc := Node.elem 0 [] [] [.elem 1 [] [] [.text [97, 98] []]]
+    let sl : Slice := ⟨[.elem 1 [] [] [.text [120] []]], 0, 0⟩
+    S.closableB = true ∧ S.checkKids sl.content = true ∧ fitEndInv S doc 2 2 sl = some true := by decide +kernel
+
 /-- **`coherent_invariant`** — the key invariant `FitState.coherentB` (with the ghost level) is an invariant
     of the loop of `fit` (Proofs/FitCoherent.lean, `Coh` = the proposition behind the Boolean):
     * **init**: the state `Fitter.__init__` builds is coherent (ghost level = `depth(from)`);
